@@ -334,7 +334,11 @@ class C03(CheckBase):
         raise RuntimeError("unknown action %r" % (a,))
 
     def key(self, ctx, m):
-        return (tuple((n, m.tok[n].t()) for n in ("A", "B", "C")), tuple((t, rw) for h, t, rw in m.sess), m.c_inits, bool(m.dead))
+        # the token flags the library reports (PIN-count warnings left by failed attempts) are state the model does not carry: part of the key, so that
+        # states that differ only in them are not merged
+        slots = ctx.world["slots"]
+        flags = tuple(ctx.p.GetTokenInfo(slots[t]).get("flags") for t in ("A", "B", "C") if t in slots and m.tok[t].init)
+        return (tuple((n, m.tok[n].t()) for n in ("A", "B", "C")), tuple((t, rw) for h, t, rw in m.sess), m.c_inits, bool(m.dead), flags)
 
     def died_sig(self, action, d):
         return "C03|%s|%r" % (action[0], d.info)
